@@ -213,6 +213,33 @@ Definition LimitReader (k : N) : ReaderImpl := {|
   r_skip := fun n l => if N.leb n (len l) then Val (dropN n l) else Panic PkIndex;
   r_sub := fun n l => if N.leb n (len l) then Val (takeN n l, dropN n l) else Panic PkIndex
 |}.
+(** A reader whose storage has a seam (a ring buffer across its wrap-around, a scatter/gather source): a [bytes(n)] request
+    that would straddle the seam is refused although the octets are there; the state is the unread octets and the distance
+    to the seam, if it is still ahead. *)
+Definition seam_adv (n : N) (st : list N * option N) : list N * option N :=
+  (dropN n (fst st), match snd st with Some x => if N.ltb n x then Some (N.sub x n) else None | None => None end).
+Definition seam_read (k : nat) (st : list N * option N) : outcome (N * (list N * option N)) :=
+  obind (lr_read k (fst st)) (fun '(x, _) => Val (x, seam_adv (N.of_nat k) st)).
+Definition SeamReader : ReaderImpl := {|
+  R := (list N * option N)%type;
+  r_len := fun st => len (fst st);
+  r_is_empty := fun st => match fst st with [] => true | _ => false end;
+  r_u8 := seam_read 1; r_u16 := seam_read 2; r_u32 := seam_read 4; r_u64 := seam_read 8;
+  r_bytes := fun n st =>
+    if andb (N.leb n (len (fst st))) (negb (match snd st with Some x => N.ltb x n | None => false end))
+    then Val (Some (takeN n (fst st)), seam_adv n st) else Val (None, st);
+  r_skip := fun n st => if N.leb n (len (fst st)) then Val (seam_adv n st) else Panic PkIndex;
+  r_sub := fun n st =>
+    if N.leb n (len (fst st))
+    then Val ((takeN n (fst st), match snd st with Some x => if N.ltb x n then Some x else None | None => None end), seam_adv n st)
+    else Panic PkIndex
+|}.
+Definition seam_init (s : N) (b : list N) : list N * option N := (b, if N.eqb s 0 then None else Some s).
+Definition ch_dec_seam (s : N) (o : opts) (b : list N) : string :=
+  show_outcome (fun x => show_mres (fst x, fst (snd x))) (grun SeamReader (msg_read o) (seam_init s b)).
+Definition ch_avps_seam (s : N) (b : list N) : string :=
+  show_outcome (fun x => show_avpres (fst x, fst (snd x))) (grun SeamReader avps_read (seam_init s b)).
+
 Definition ch_dec_lim (k : N) (o : opts) (b : list N) : string :=
   show_outcome show_mres (grun (LimitReader k) (msg_read o) b).
 Definition ch_avps_lim (k : N) (b : list N) : string :=
